@@ -134,16 +134,20 @@ package percolator
 //@   ensures [non-nil] result != nil
 //@   modifies nothing
 
+//@ ghost var commitKeyCalls Int
+//@ ghost var lastCommitKeyLockTs uint64
 //@ func commitKey
 //@   property C18 C19
 //@   requires lock != nil
+//@   ghost commitKeyCalls = commitKeyCalls + 1
+//@   ghost lastCommitKeyLockTs = old(lock.Ts)
 //@   ensures [refuse-below-min-commit] old(lock.MinCommitTs) > commitVersion ==> result != nil && dbWrites == old(dbWrites) && lookups == old(lookups)
 //@   ensures [rolled-back-aborts] lookups == old(lookups) + 1 && lastRollback ==> result != nil && dbWrites == old(dbWrites)
 //@   ensures [success-saw-no-rollback] result == nil ==> sawRollback == old(sawRollback)
 //@   ensures [record-before-lock-removal] old(lockDeletes) == 0 ==> (!writeAfterLockDelete || old(writeAfterLockDelete))
 //@   ensures [at-most-one-record] writeCFSets <= old(writeCFSets) + 1 && writeCFSets >= old(writeCFSets)
 //@   ensures [already-decided-writes-no-record] lookups == old(lookups) + 1 && lastFound ==> writeCFSets == old(writeCFSets)
-//@   modifies nothing
+//@   modifies ghost(lookups), ghost(lastFound), ghost(lastRollback), ghost(sawRollback), ghost(dbWrites), ghost(writeCFSets), ghost(lockDeletes), ghost(defaultDeletes), ghost(writeAfterLockDelete)
 
 //@ func rollbackKey
 //@   property C18
@@ -203,3 +207,13 @@ package percolator
 //@   ensures [selected-delete-or-nothing-is-not-found] readSelections == old(readSelections) + 1 && (!lastSelectedFound || lastSelectedKind == 1) ==> result1 != nil && defaultReads == old(defaultReads)
 //@   ensures [one-selection] readSelections == old(readSelections) + 1
 //@   modifies ghost(readSelections), ghost(lastSelectedFound), ghost(lastSelectedKind), ghost(lastSelectedStartTs), ghost(defaultReads), ghost(lastDefaultReadTs)
+
+// C18 ResolveLock: only the locks of the transaction being resolved are committed or
+// rolled back - a key locked by ANOTHER transaction is skipped (its outcome is not decided
+// by this request).
+//@ ghost var rollbackKeyCalls Int
+//@ func ResolveLock
+//@   property C18
+//@   requires latches == nil || len(latches.stripes) > 0
+//@   ensures [commits-only-its-own-locks] req != nil && commitKeyCalls > old(commitKeyCalls) ==> lastCommitKeyLockTs == req.StartVersion
+//@   loop 1 invariant [own-locks-only] req != nil && (commitKeyCalls > old(commitKeyCalls) ==> lastCommitKeyLockTs == req.StartVersion) && commitKeyCalls >= old(commitKeyCalls)
